@@ -1259,6 +1259,12 @@ func runRetarget(run *vlib.Run, s *chainsim.Sim, r *vlib.Rand, cfg Config) {
 		// testnet: keep the gaps of the second epoch below 20 minutes so that real difficulty is in force
 		spacings = []uint32{1 + uint32(r.Intn(3)), 400 + uint32(r.Intn(300)), 2400 + uint32(r.Intn(400))}
 	}
+	if !p.MinDiffBlocks || r.Bool() {
+		run.Inc("retarget_histories_with_clamp_from_below_the_limit")
+		// first a somewhat faster epoch (target = 0.5..0.9 of the limit), then a slow one: the retargeted value exceeds
+		// the proof-of-work limit from a period that was not at the limit itself, and has to be clamped to it
+		spacings = append([]uint32{300 + uint32(r.Intn(240)), 2400 + uint32(r.Intn(400))}, spacings...)
+	}
 	end := uint32(cfg.Blocks)
 	refuse := func(b *refchain.Block, fam string) bool {
 		rr, _, ok := s.Offer(b, fam)
